@@ -2,15 +2,17 @@
 (* Enumerates the cases replayed on the real connection task: every (I, T) of the grid, both orders
    of the two builder calls, and every pong history "answered with delays d1..dn, then silent" with
    n <= MaxN and delays from Ds (a delay of Never inside the list = that Pong and all later ones are
-   lost).  One state = one case; every case is printed as a JSON line.                              *)
+   lost), each without and with "chatter": traffic from the peer that is not a Pong (its own Ping, a
+   frame for an unknown flow) every second, which is no sign of life and must change nothing.
+   One state = one case; every case is printed as a JSON line.                                      *)
 EXTENDS KeepaliveDefs, Json
 
 CONSTANTS Is, Ts, Ds, MaxN, Hz
 
 VARIABLE case
 Hist(n) == [1 .. n -> Ds]
-Cases == {[I |-> i, T |-> t, order |-> o, delays |-> d, horizon |-> Hz] :
-            i \in Is, t \in Ts, o \in {"it", "ti"}, d \in UNION {Hist(n) : n \in 0 .. MaxN}}
+Cases == {[I |-> i, T |-> t, order |-> o, delays |-> d, horizon |-> Hz, chatter |-> ch] :
+            i \in Is, t \in Ts, o \in {"it", "ti"}, d \in UNION {Hist(n) : n \in 0 .. MaxN}, ch \in {0, 1}}
 Init == case \in Cases
 Next == UNCHANGED case
 Spec == Init /\ [][Next]_case
